@@ -274,8 +274,8 @@ theorem dec_enc (bits v : ℕ) (hv : v < 2 ^ bits) (hB : nbytes bits + 1 ≤ 0xf
 
 /-- C17: the DER decoder accepts ONLY the canonical encoding (`from_der` also rejects trailing data):
     an accepted input IS `enc v`, and `v` is in range. -/
-theorem dec_canonical (bits : ℕ) (bs : List ℕ) (hbs : IsBytes bs) (v : ℕ) (h : dec bits bs = .ok v) :
-    v < 2 ^ bits ∧ bs = enc v := by
+theorem dec_canonical' (bits : ℕ) (bs : List ℕ) (hbs : IsBytes bs) (v : ℕ) (h : dec bits bs = .ok v) :
+    v < 2 ^ bits ∧ bs = enc v ∧ (content v).length ≤ 0xfffffff := by
   match bs, hbs with
   | [], _ => simp [dec] at h
   | t :: r1, hbs =>
@@ -308,8 +308,12 @@ theorem dec_canonical (bits : ℕ) (bs : List ℕ) (hbs : IsBytes bs) (v : ℕ) 
                   have hbody : (r1.drop k).length = len := by omega
                   rw [← hbody, List.take_length] at hv'
                   obtain ⟨f1, f2⟩ := fromDerSlice_canonical bits _ (hbs.tail.drop k) _ hv'
-                  refine ⟨f1, ?_⟩
+                  refine ⟨f1, ?_, by rw [← f2, hbody]; exact c3⟩
                   unfold enc
                   rw [← f2, hbody, ← c2, List.take_append_drop]
+
+theorem dec_canonical (bits : ℕ) (bs : List ℕ) (hbs : IsBytes bs) (v : ℕ) (h : dec bits bs = .ok v) :
+    v < 2 ^ bits ∧ bs = enc v :=
+  ⟨(dec_canonical' bits bs hbs v h).1, (dec_canonical' bits bs hbs v h).2.1⟩
 
 end Ruint.Codec.Der
